@@ -150,7 +150,10 @@ COMPONENTS = {
 def _worker(args):
     prop, tier, seeds, deadline = args
     faulthandler.enable()
-    faulthandler.dump_traceback_later(600, exit=True)
+    # a worker that hangs is killed (with a traceback) well after the batch
+    # deadline; the parent turns that into a HARNESS-ERROR, never into exit 0
+    limit = max(300.0, (deadline or time.time()) - time.time() + 240.0)
+    faulthandler.dump_traceback_later(limit, exit=True)
     from . import runner
     return runner.run_seeds(prop, tier, seeds, deadline)
 
